@@ -178,17 +178,45 @@ func runSchedBatch(bin string, seed uint64, n, workers int, deadline time.Time, 
 }
 
 // libraryFrames reports whether a race report has a frame in library code.
+// libraryFrames reports whether a race report concerns library code: the
+// accessing statement (top frame) of at least one of its two stacks must be in
+// non-generated library source. A report whose accesses are both in harness or
+// generated code (library frames only further up the stack) is not a finding.
 func libraryFrames(report string) bool {
-	for _, l := range strings.Split(report, "\n") {
-		l = strings.TrimSpace(l)
-		if strings.HasPrefix(l, repoDir+"/") && !strings.Contains(l, "zz_verif_gen.go") {
-			return true
+	lines := strings.Split(report, "\n")
+	for i, l := range lines {
+		t := strings.TrimSpace(l)
+		if strings.HasPrefix(t, "Read at ") || strings.HasPrefix(t, "Write at ") || strings.HasPrefix(t, "Previous read at ") ||
+			strings.HasPrefix(t, "Previous write at ") || strings.HasPrefix(t, "Atomic ") || strings.HasPrefix(t, "Previous atomic ") {
+			// the frame that follows: "  func()" then "      file:line +0x.."
+			for j := i + 1; j < len(lines) && j <= i+2; j++ {
+				loc := strings.TrimSpace(lines[j])
+				if strings.HasPrefix(loc, repoDir+"/") && !strings.Contains(loc, "zz_verif_gen.go") {
+					return true
+				}
+			}
 		}
 	}
 	return false
 }
 
+// runTrace replays a schedule; a replay that shows nothing is retried (a library
+// that uses sync.Pool or similar runtime-managed state is not fully under the
+// simulator's control).
 func runTrace(bin, path string, race bool) (int, *schedOut, string) {
+	var code int
+	var so *schedOut
+	var rep string
+	for attempt := 0; attempt < 3; attempt++ {
+		code, so, rep = runTraceOnce(bin, path, race)
+		if code == 1 || code == 66 {
+			break
+		}
+	}
+	return code, so, rep
+}
+
+func runTraceOnce(bin, path string, race bool) (int, *schedOut, string) {
 	cmd := exec.Command(bin, "sched", "-trace", path)
 	logPrefix := "race_replay"
 	cmd.Env = append(os.Environ(), "GOMAXPROCS=2", "GORACE=halt_on_error=1 atexit_sleep_ms=0 log_path="+filepath.Join(scratch, logPrefix))
@@ -303,18 +331,18 @@ func checkC18(ca *checkArgs) int {
 	}
 	fmt.Printf("instrumented and built (plain, -race) from /repo in %.1fs\n", time.Since(start).Seconds())
 
+	var problems []string
 	pb := runSchedBatch(binP, ca.seed, nPlain, ca.workers, time.Now().Add(budgetPlain), false, false)
-	if pb.err != "" {
-		inconclusive("%s", pb.err)
-	}
 	rb := runSchedBatch(binR, ca.seed, nRace, ca.workers, time.Now().Add(budgetRace), true, true)
-	if rb.err != "" {
-		inconclusive("%s", rb.err)
-	}
 	ppb := runSchedBatch(binPP, ca.seed+1, nPlain/5+1, ca.workers, time.Now().Add(budgetPlain/4), false, false)
-	if ppb.err != "" {
-		inconclusive("%s", ppb.err)
+	for name, b := range map[string]*schedBatch{"plain": pb, "race": rb, "purego": ppb} {
+		if b.err != "" {
+			problems = append(problems, name+" wave: "+b.err)
+		} else if b.runs < 10 && len(b.violations)+len(b.races) == 0 {
+			problems = append(problems, fmt.Sprintf("only %d runs completed in the %s wave within the budget", b.runs, name))
+		}
 	}
+	sort.Strings(problems)
 	code := 0
 	var replayFiles []string
 	dir := filepath.Join(outDir, "replays", "C18")
@@ -339,8 +367,9 @@ func checkC18(ca *checkArgs) int {
 			write(tr)
 			c, so, _ = runTrace(bin, path, false)
 			if !(c == 1 && so != nil && so.Violation != nil) {
-				fmt.Printf("non-reproducing failure kept at %s: %s\n", path, v.Violation.Detail)
-				inconclusive("a C18 violation was observed but does not replay from its trace (harness defect)")
+				fmt.Printf("a C18 violation was observed but does not replay from its trace (kept at %s): %s\n", path, v.Violation.Detail)
+				problems = append(problems, "a violation was observed but does not replay from its trace")
+				return
 			}
 		}
 		nd := 0
@@ -385,7 +414,8 @@ func checkC18(ca *checkArgs) int {
 		data, _ := os.ReadFile(out)
 		var so schedOut
 		if json.Unmarshal(data, &so) != nil || so.Trace == nil {
-			inconclusive("could not obtain the explicit trace of racy run %d", r.idx)
+			problems = append(problems, fmt.Sprintf("could not obtain the explicit trace of racy run %d", r.idx))
+			continue
 		}
 		var tr map[string]interface{}
 		json.Unmarshal(so.Trace, &tr)
@@ -405,7 +435,8 @@ func checkC18(ca *checkArgs) int {
 			c, _, rep = runTrace(binR, path, true)
 			if !(c == 66 && libraryFrames(rep)) {
 				fmt.Printf("race report that does not replay (run %d):\n%s\n", r.idx, tail(r.report, 3000))
-				inconclusive("a data race was reported but does not replay from its trace")
+				problems = append(problems, "a data race was reported but does not replay from its trace")
+				continue
 			}
 		}
 		os.WriteFile(strings.TrimSuffix(path, ".json")+".race.txt", []byte(rep), 0o644)
@@ -414,15 +445,15 @@ func checkC18(ca *checkArgs) int {
 		replayFiles = append(replayFiles, path)
 		code = 1
 	}
-	if code == 0 && harnessOnly > 0 {
-		inconclusive("race reports without any library frame: harness defect")
+	if harnessOnly > 0 {
+		problems = append(problems, "race reports whose accesses are not in library code (harness defect)")
 	}
 	// evidence
 	var unreached []string
 	// reach requirements are scheme-agnostic and conditional: they only apply when
 	// the tree has first-use code / blocking synchronisation at all (an eager init()
 	// has neither, and is a correct implementation)
-	if pb.stats["gate_calls"] > 0 && pb.stats["gate_blocks"] == 0 {
+	if pb.stats["runs_with_first_use_code"] > 0 && pb.stats["gate_calls_open"] > 20 && pb.stats["gate_blocks"] == 0 {
 		unreached = append(unreached, "a task reached a sync.Once/Mutex while another task was inside it (gate_blocks)")
 	}
 	if pb.stats["runs_with_first_use_code"] > 0 && pb.stats["preempt_inside_first_use_code"] == 0 {
@@ -493,6 +524,9 @@ func checkC18(ca *checkArgs) int {
 		"violations": len(pb.violations) + len(rb.violations) + len(rb.races) + len(ppb.violations),
 	}
 	writeEvidenceFile("C18", ev)
+	if code == 0 && len(problems) > 0 {
+		inconclusive("%s", strings.Join(problems, "; "))
+	}
 	if code == 0 && len(unreached) > 0 {
 		inconclusive("schedules did not reach: %v", unreached)
 	}
